@@ -12,6 +12,9 @@
 
 #include "EbDefinitions.h"
 #include "EbDecHandle.h"
+#ifdef SVT_AV1_VERIF
+#include "EbVerifHooks.h"
+#endif
 #include "EbDecUtils.h"
 
 #include "EbDecInverseQuantize.h"
@@ -320,6 +323,9 @@ void dec_av1_loop_restoration_filter_row(EbDecHandle *dec_handle, int32_t sb_row
                 if (col_y >= tile_w_y - w_y)
                     nsync = 0;
                 while (*sb_lr_completed_in_prev_row < (sb_col_y + nsync))
+#ifdef SVT_AV1_VERIF
+                    SVT_VERIF_SPIN(sb_lr_completed_in_prev_row)
+#endif
                     ;
             }
         }
@@ -466,6 +472,9 @@ void dec_av1_loop_restoration_filter_row(EbDecHandle *dec_handle, int32_t sb_row
 
         if (is_mt) {
             *sb_lr_completed_in_row = sb_col_y;
+#ifdef SVT_AV1_VERIF
+            SVT_VERIF_SYNC_STORE(sb_lr_completed_in_row);
+#endif
         }
     }
 }
